@@ -625,3 +625,34 @@ Proof.
     rewrite (trec_any_hit k y fuel m acc out1 H1 Hf), (trec_any_hit k y fuel m acc out2 H2 Hf); eauto.
   - rewrite (trec_any_miss k fuel m acc out1 H1 Hno), (trec_any_miss k fuel m acc out2 H2 Hno). reflexivity.
 Qed.
+
+(* ------------------------------------------------------------------------------------------ *)
+(** * Global state: every Compile starts from the same globals, whatever ran before *)
+
+Lemma run_compiles_init hist : run_compiles hist globals_init = globals_init.
+Proof.
+  unfold run_compiles. induction hist as [|og hist IH]; cbn [fold_left]; [reflexivity|].
+  cbn [compile_globals snd globals_reset_fn]. exact IH.
+Qed.
+
+Theorem compile_sees_fresh_globals hist o generated :
+  fst (compile_globals o generated (run_compiles hist globals_init)) = globals_set o globals_init.
+Proof. now rewrite run_compiles_init. Qed.
+
+(** json collectFrugals: like the generation plan, independent of the layout of ParsedIncludes *)
+Theorem collect_frugals_view_free fuel m m' used acc :
+  same_view fuel m m' -> collect_frugals fuel m used acc = collect_frugals fuel m' used acc.
+Proof.
+  revert m m' used acc. induction fuel as [|f IH]; intros m m' used acc Hv.
+  - destruct Hv as (Hf & Hn & _ & _). cbn [collect_frugals]. now rewrite Hf, Hn.
+  - destruct Hv as (Hf & Hn & Hi & Hl). cbn [collect_frugals]. rewrite Hf, Hn.
+    destruct (existsb (str_eqb (m_name m')) used); [reflexivity|].
+    unfold ordered_includes. rewrite Hi.
+    generalize (sort_by include_less (m_includes m')) as incs.
+    generalize (m_name m' :: used, acc ++ [m_file m']) as st.
+    intros st incs; revert st. induction incs as [|inc incs IHi]; intros st; cbn [fold_left]; [reflexivity|].
+    rewrite <- IHi. f_equal.
+    specialize (Hl (fst inc)).
+    destruct (lookup (fst inc) (m_parsed m)) as [c|], (lookup (fst inc) (m_parsed m')) as [c'|];
+      try contradiction; auto.
+Qed.
